@@ -46,6 +46,15 @@ func c04Prelude() []Stmt {
 			Print{Args: []Expr{StrLit{V: "f3"}, Var{"a"}, Var{"b"}, Var{"c"}}},
 			Return{Vals: []Expr{Binary{Op: "+", L: Binary{Op: "+", L: Var{"a"}, R: Var{"b"}}, R: Var{"c"}}}},
 		}},
+		// spin contains a condition-only loop (no increment clause), two and three return several values
+		FuncDef{Name: "spin", Params: []Param{{"a", TInt}}, Rets: []Type{TInt}, Body: []Stmt{
+			Define{Names: []string{"k"}, Form: DefShort, Vals: []Expr{lit(0)}},
+			For{Cond: Binary{Op: "<", L: Var{"k"}, R: Var{"a"}}, Body: []Stmt{IncDec{Name: "k", Inc: true}}},
+			Return{Vals: []Expr{Var{"k"}}}}},
+		FuncDef{Name: "two", Params: []Param{{"a", TInt}, {"b", TInt}}, Rets: []Type{TInt, TInt}, Body: []Stmt{
+			Print{Args: []Expr{StrLit{V: "two"}, Var{"a"}, Var{"b"}}}, Return{Vals: []Expr{Var{"a"}, Var{"b"}}}}},
+		FuncDef{Name: "three", Params: []Param{{"a", TInt}, {"b", TInt}, {"c", TInt}}, Rets: []Type{TInt, TInt, TInt}, Body: []Stmt{
+			Print{Args: []Expr{StrLit{V: "three"}, Var{"a"}, Var{"b"}, Var{"c"}}}, Return{Vals: []Expr{Var{"a"}, Var{"b"}, Var{"c"}}}}},
 		FuncDef{Name: "f1", Params: []Param{{"a", TInt}}, Rets: []Type{TInt}, Body: []Stmt{
 			Print{Args: []Expr{StrLit{V: "f1"}, Var{"a"}}},
 			Return{Vals: []Expr{Binary{Op: "*", L: Var{"a"}, R: lit(2)}}},
@@ -246,6 +255,36 @@ func c04Templates() []c04Tmpl {
 		c04Tmpl{name: "panic-arg", types: []string{"string"}, plain: []Expr{StrLit{V: "boom"}},
 			body: func(o []Expr) []Stmt { return []Stmt{Panic{X: o[0]}} }},
 	)
+	// the blank identifier as a target: its value is evaluated like any other, and the values of a call keep
+	// their positions; a loop whose body calls a function that loops without an increment clause
+	T = append(T,
+		c04Tmpl{name: "define-blank-second", types: []string{"int", "int"}, plain: ints(4, 5),
+			body: func(o []Expr) []Stmt {
+				return []Stmt{Define{Names: []string{"d1", "_"}, Form: DefShort, Vals: o}, Print{Args: []Expr{StrLit{V: "def"}, Var{"d1"}}}}
+			}},
+		c04Tmpl{name: "define-blank-first", types: []string{"int", "int"}, plain: ints(4, 5),
+			body: func(o []Expr) []Stmt {
+				return []Stmt{Define{Names: []string{"_", "d2"}, Form: DefShort, Vals: o}, Print{Args: []Expr{StrLit{V: "def"}, Var{"d2"}}}}
+			}},
+		c04Tmpl{name: "define-var-blank", types: []string{"int"}, plain: ints(4),
+			body: func(o []Expr) []Stmt { return []Stmt{Define{Names: []string{"_"}, Form: DefVarInit, Vals: o}} }},
+		c04Tmpl{name: "define-call-blank-first", types: []string{"int", "int"}, plain: ints(17, 5),
+			body: func(o []Expr) []Stmt {
+				return []Stmt{Define{Names: []string{"_", "d2"}, Form: DefShort, Vals: []Expr{Call{Fn: "two", Args: o}}}, Print{Args: []Expr{StrLit{V: "def"}, Var{"d2"}}}}
+			}},
+		c04Tmpl{name: "define-call-blank-middle", types: []string{"int", "int", "int"}, plain: ints(1, 2, 3),
+			body: func(o []Expr) []Stmt {
+				return []Stmt{Define{Names: []string{"d1", "_", "d3"}, Form: DefShort, Vals: []Expr{Call{Fn: "three", Args: o}}}, Print{Args: []Expr{StrLit{V: "def"}, Var{"d1"}, Var{"d3"}}}}
+			}},
+		c04Tmpl{name: "assign-call-blank-first", types: []string{"int", "int"}, plain: ints(17, 5),
+			body: func(o []Expr) []Stmt {
+				return []Stmt{Define{Names: []string{"_"}, Form: DefShort, Vals: []Expr{lit(0)}}, Assign{Names: []string{"_", "r"}, Vals: []Expr{Call{Fn: "two", Args: o}}}}
+			}},
+		c04Tmpl{name: "for-header-body-calls-looping-function", types: []string{"int", "int", "int"}, plain: ints(0, 3, 1),
+			body: func(o []Expr) []Stmt {
+				return []Stmt{For{Init: Define{Names: []string{"fi"}, Form: DefShort, Vals: []Expr{o[0]}}, Cond: Binary{Op: "<", L: Var{"fi"}, R: o[1]}, Post: OpAssign{Name: "fi", Op: "+", Val: o[2]}, Body: []Stmt{Print{Args: []Expr{StrLit{V: "body"}, Var{"fi"}, Call{Fn: "spin", Args: []Expr{lit(2)}}}}}}}
+			}},
+	)
 	// expressions written as statements (the value is not used): the operands are evaluated all the same
 	es := func(e Expr) []Stmt { return []Stmt{ExprStmt{X: e}} }
 	T = append(T,
@@ -382,7 +421,7 @@ func C04() int {
 			st = append(st, c04Show(), mark("second"))
 			second := mk(t2, 10)
 			// the second statement must not redefine names of the first
-			if (strings.HasPrefix(t1.name, "define") && strings.HasPrefix(t2.name, "define")) || (t1.name == t2.name && t1.name == "copy-source") {
+			if ((strings.HasPrefix(t1.name, "define") || strings.HasPrefix(t1.name, "assign-call-blank")) && (strings.HasPrefix(t2.name, "define") || strings.HasPrefix(t2.name, "assign-call-blank"))) || (t1.name == t2.name && t1.name == "copy-source") {
 				continue
 			}
 			st = append(st, second...)
@@ -396,7 +435,7 @@ func C04() int {
 		goSame := map[string]bool{"binary+": true, "binary-": true, "binary*": true, "binary/": true, "binary%": true, "compare-int<": true, "compare-int==": true, "compare-int>": true, "compare-int>=": true, "compare-int<=": true, "compare-int!=": true,
 			"compare-string": true, "compare-bool": true, "not": true, "nested-arith": true, "grouped-arith": true, "left-assoc-sub": true, "call-args": true,
 			"call-stmt-args": true, "nested-calls": true, "slice-read-index": true, "slice-read-two": true, "slice-literal": true, "print-args": true, "return-values": true,
-			"define-multi": true, "define-var-typed": true, "assign-multi": true, "compound-assign": true, "for-header": true, "for-header-continue": true,
+			"define-multi": true, "define-var-typed": true, "define-blank-second": true, "define-blank-first": true, "define-var-blank": true, "define-call-blank-first": true, "define-call-blank-middle": true, "for-header-body-calls-looping-function": true, "assign-multi": true, "compound-assign": true, "for-header": true, "for-header-continue": true,
 			"for-condition-only": true, "len-string": true, "len-slice": true, "itoa": true, "string-concat": true}
 		var conf []*Prog
 		for _, it := range all {
